@@ -140,9 +140,35 @@ def d2(repo: Repo) -> RuleResult:
         for name, accepted in {"shift_s": ["self.format_op_mode_smart_shift(shift)"], "fi_shift": ["fi * 8", "8 * fi"], "chain_type": ["self.format_type(t)"], "unsigned_type": ["self._format_unsigned_chain_type(t)"]}.items():
             if loc.get(name) not in accepted:
                 bad("c-be", fi, f"prov:{name}", f"`{name}` is computed as `{loc.get(name)}`, expected one of {accepted}", construct=str(loc.get(name)))
-        hi = [n for n in ast.walk(fi.node) if isinstance(n, ast.If) and src_of(n.test) in ("fi_shift > 0", "fi_shift", "fi_shift != 0", "fi > 0")]
-        if not hi:
-            res.unsure(f"D2: {fi.qual}: `if fi_shift > 0` selection not found")
+        # which template is returned for each fi_shift value; from 32 on the byte must be widened before the shift
+        from .rules_d3 import _fold_pred
+
+        rr = _resolved_returns(fi.node)
+        for val in (0, 8, 16, 24, 32, 40, 48, 56):
+            chosen = None
+            for shape, r in rr:
+                ok = True
+                for e, truth in facts_at(r, fi.node):
+                    v = _fold_pred(e, "fi_shift", val)
+                    if v is None:
+                        v2 = _fold_pred(e, "fi", val // 8)
+                        v = v2
+                    if v is not None and bool(v) != truth:
+                        ok = False
+                if ok and chosen is None:
+                    chosen = shape
+            res.inst(part="c-be", function=fi.qual, fi_shift=val, template=chosen)
+            if chosen is None:
+                res.unsure(f"D2: {fi.qual}: no template selected for fi_shift = {val}")
+                break
+            shifted = "<< {fi_shift}" in chosen
+            widened = "({unsigned_type})" in chosen.split("<< {fi_shift}")[0] if shifted else False
+            if val > 0 and not shifted:
+                bad("c-be", fi, f"no-shift:{val}", f"for fi_shift = {val} the decoded byte is not shifted to its position in the field", construct=chosen)
+                break
+            if val >= 32 and shifted and not widened:
+                bad("c-be", fi, "widen-threshold", f"for fi_shift = {val} the 32-bit `unsigned` byte value is shifted left without first being widened to the field's unsigned type: shifting a 32-bit value by {val} is undefined / loses the bits", construct=chosen, witness="uint33 holding 2**32 decodes as 0 with -O on a big-endian build")
+                break
     except Inconclusive as e:
         res.unsure(f"D2: {e}")
     # Go decoder
@@ -343,6 +369,24 @@ def c8(repo: Repo) -> RuleResult:
         f = Finding("C8", bp.rel, td.node.lineno if td else 0, "MessageBase.to_dict", "", "to_dict does not convert with the generated dict_factory: enum proxy attributes leak into the output", tag="to_dict:factory")
         f.part = "py"
         res.bad(f)
+    df0 = m.mod("impls/py/renderer.py").classes.get("BlockMessageDictFactory")
+    if df0 is not None:
+        from .core import enclosing
+
+        for n in ast.walk(df0.node):
+            if isinstance(n, ast.Call) and isinstance(n.func, ast.Attribute) and n.func.attr == "push" and n.args and "def dict_factory" in (_fstring_shape(n.args[0]) if isinstance(n.args[0], ast.JoinedStr) else str(getattr(n.args[0], "value", ""))):
+                cond = enclosing(n, (ast.If, ast.For, ast.While))
+                if cond is None:
+                    # an early return before the push makes it conditional as well
+                    fn0 = enclosing(n, ast.FunctionDef)
+                    pre = [t for t, truth in facts_at(n, fn0)] if fn0 is not None else []
+                    if pre:
+                        cond = ast.If(test=pre[0], body=[], orelse=[])
+                res.inst(part="py", function="BlockMessageDictFactory", conditional=cond is not None)
+                if cond is not None:
+                    f = Finding("C8", "compiler/bitproto/renderer/impls/py/renderer.py", n.lineno, "BlockMessageDictFactory", src_of(cond.test) if isinstance(cond, ast.If) else "loop", "dict_factory is emitted only for some messages, but dataclasses.asdict applies the TOP-LEVEL object's factory to every nested dataclass: the hidden enum proxy attributes of nested messages leak into to_dict()/to_json()", witness="message Outer { Inner i = 1 }  message Inner { Color c = 1 }: Outer().to_dict() contains _enum_field_proxy__c", tag="dict_factory:conditional")
+                    f.part = "py"
+                    res.bad(f)
     df = m.mod("impls/py/renderer.py").classes.get("BlockMessageDictFactory")
     sh = _shapes(df.node) if df else []
     res.inst(part="py", function="BlockMessageDictFactory", templates=sh)
